@@ -415,6 +415,37 @@ def numtext(q):
     return s
 
 
+def floattext(x):
+    """strconv.FormatFloat(x, 'f', -1, 64): the shortest digits that parse back to x, without exponent"""
+    if x == 0:
+        return "-0" if str(x).startswith("-") else "0"
+    s = format(Decimal(repr(x)), "f")
+    if "." in s:
+        s = s.rstrip("0").rstrip(".")
+    return s
+
+
+FLOATS = False   # evaluate arithmetic as IEEE-754 doubles (the deviation of KF-C12-float-arithmetic)
+
+
+def arith(a_hex, b_hex, plus):
+    if FLOATS:
+        x, y = float(num(a_hex)), float(num(b_hex))
+        return floattext(x + y if plus else x - y).encode().hex()
+    q = num(a_hex) + num(b_hex) if plus else num(a_hex) - num(b_hex)
+    return numtext(q).encode().hex()
+
+
+def apply_update_floats(actions, item):
+    """the same update computed in binary64, as the code under test computes it"""
+    global FLOATS
+    FLOATS = True
+    try:
+        return apply_update(actions, item)
+    finally:
+        FLOATS = False
+
+
 def eval_uval(v, item):
     k = v["k"]
     if k == "operand":
@@ -429,8 +460,7 @@ def eval_uval(v, item):
         a, b = eval_uval(v["a"], item), eval_uval(v["b"], item)
         if tag(a) != "N" or tag(b) != "N":
             raise Reject("arithmetic on non-numbers")
-        q = num(a["N"]) + num(b["N"]) if k == "plus" else num(a["N"]) - num(b["N"])
-        return {"N": numtext(q).encode().hex()}
+        return {"N": arith(a["N"], b["N"], k == "plus")}
     if k == "if_not_exists":
         r = resolve(item, v["p"])
         dflt = eval_uval(v["a"], item)   # an operand that cannot be evaluated rejects the update either way
@@ -472,9 +502,9 @@ def apply_update(actions, item):
             elif tag(cur) != ta:
                 raise Reject("ADD type mismatch")
             elif ta == "N":
-                new = {"N": numtext(num(cur["N"]) + num(arg["N"])).encode().hex()}
+                new = {"N": arith(cur["N"], arg["N"], True)}
             else:
-                new = {ta: list(cur[ta]) + [e for e in arg[ta] if canon({ta[0]: e}) not in [canon({ta[0]: c}) for c in cur[ta]]]}
+                new = {ta: list(cur[ta]) + [e for e in arg[ta] if canon({ta[0]: e}, FLOATS) not in [canon({ta[0]: c}, FLOATS) for c in cur[ta]]]}
             out = [kv for kv in out if kv[0] != a["target"]["root"]] + [[a["target"]["root"], new]]
         elif a["k"] == "delete":
             cur = item_get(item, a["target"]["root"])
@@ -488,8 +518,8 @@ def apply_update(actions, item):
                 continue
             if tag(cur) != ta:
                 raise Reject("DELETE type mismatch")
-            gone = [canon({ta[0]: e}) for e in arg[ta]]
-            left = [c for c in cur[ta] if canon({ta[0]: c}) not in gone]
+            gone = [canon({ta[0]: e}, FLOATS) for e in arg[ta]]
+            left = [c for c in cur[ta] if canon({ta[0]: c}, FLOATS) not in gone]
             out = [kv for kv in out if kv[0] != a["target"]["root"]]
             if left:
                 out.append([a["target"]["root"], {ta: left}])
